@@ -24,6 +24,7 @@ pub fn run_case(toks: &[&str], em: &mut Emitter) {
                 'W' => outs.push(format!("w:{}", hex(&main.gss_wrapex(&unhex(rest)).unwrap()))),
                 'M' => { let s = mirror.gss_wrapex(&unhex(rest)).unwrap(); outs.push(show(main.gss_unwrapex(&s))); }
                 'T' => { let (bit, pt) = split(rest); let mut s = mirror.gss_wrapex(&pt).unwrap(); flip_bit(&mut s, bit); outs.push(show(main.gss_unwrapex(&s))); }
+                'R' => { let (bit, pt) = split(rest); let mut s = mirror.gss_wrapex(&pt).unwrap(); flip_bit(&mut s, bit); let r1 = show(main.gss_unwrapex(&s)); let r2 = show(main.gss_unwrapex(&s)); outs.push(format!("{}+{}", r1, r2)); }
                 'X' => { let (n, pt) = split(rest); let mut s = mirror.gss_wrapex(&pt).unwrap(); s.truncate(n); outs.push(show(main.gss_unwrapex(&s))); }
                 'A' => { let (n, pt) = split(rest); let mut s = mirror.gss_wrapex(&pt).unwrap(); s.extend(vec![0u8; n]); outs.push(show(main.gss_unwrapex(&s))); }
                 _ => outs.push(show(main.gss_unwrapex(&unhex(rest)))),
@@ -89,6 +90,10 @@ pub fn generate(thorough: bool, seed: u64, part: (usize, usize), em: &mut Emitte
         ops.push(format!("M{}", hex(&p2))); ops.push(format!("T{}:{}", (bit + 9) % 32, hex(&p3))); ops.push(format!("T{}:{}", bit, hex(&p2)));
         ops.push(format!("M{}", hex(&p3))); ops.push(format!("W{}", hex(&p1)));
         emit(em, &k, &ops);
+        // the very same tampered bytes handed in twice (first on a fresh context, then after traffic)
+        let mut ops2: Vec<String> = (0..(i % 2)).map(|_| format!("M{}", hex(&msg(&mut r)))).collect();
+        ops2.push(format!("R{}:{}", bit, hex(&p1))); ops2.push(format!("R{}:{}", (bit + 40) % 128, hex(&p2)));
+        emit(em, &k, &ops2);
     }
     // sealed messages beyond 64 KiB (NTLM sealing has no such limit), in both directions, then a small one
     if part.0 == 0 {
